@@ -14,3 +14,8 @@ Theorem C06_perm : C06_perm_stmt.                        Proof. exact Proofs.C06
 Theorem C06_unknown : C06_unknown_stmt.                  Proof. exact Proofs.C06.C06_unknown. Qed.
 Theorem C06_unknown_chart : C06_unknown_chart_stmt.      Proof. exact Proofs.C06.C06_unknown_chart. Qed.
 Theorem C06_required : C06_required_stmt.                Proof. exact Proofs.C06.C06_required. Qed.
+
+(** Capstone: a file rendered from well-formed sections (LF or CRLF) is parsed as [from_secs] of exactly
+    those sections. *)
+From CP Require Import Spec.Render Proofs.Render.
+Theorem render_file : render_file_stmt.       Proof. exact Proofs.Render.render_file. Qed.
